@@ -30,6 +30,16 @@ def design(ctx):
     if resm["violated"] != "SliceOk":
         raise vlib.ToolError("spec mutant (slice reader without length check) was not rejected by TLC")
     ctx.add_part(spec_mutant="slice reader indexes the header without checking the length", rejected_by="SliceOk")
+    # unbounded: the same reader machine for EVERY length / truncation / fault position, by an inductive invariant (Apalache)
+    mod = os.path.join(vlib.SPEC, "apalache", "FilesInd.tla")
+    obligations = [("Init", "IndInv", 0), ("IndInit", "IndInv", 1), ("IndInit", "Refines", 0)]
+    done = 0
+    for init, inv, ln in obligations:
+        if not vlib.apalache(f"C07-{init}-{inv}", mod, init, inv, ln):
+            raise vlib.ToolError(f"FilesInd: inductive obligation {init} => {inv} (length {ln}) fails")
+        done += 1
+    ctx.add_part(apalache="FilesInd: Init => IndInv, IndInv /\\ Next => IndInv', IndInv => Refines (reader refines VpFiles!ReadOutcome for "
+                          "unbounded file length, truncation point, fault position and chunking)", obligations=len(obligations), discharged=done)
 
 
 def run(ctx):
